@@ -9,8 +9,9 @@
         corresponded;
     (2) asset independence: in the model the per-asset result is by construction a function of that asset's
         sheet, the configuration and the artificial-id counter (Parser.parse_sheet, Pipeline.fractions_of take
-        nothing else).  The counter -- the only state shared between the assets of one run -- only shifts the
-        ids of the artificial FEE rows; those ids lie below the counter's start value and are pairwise
+        nothing else).  The counter -- the only state shared between the assets of one run; it starts at 0 and
+        only decreases, the statement needs c <= 1 = the first sheet row -- only shifts the ids of the artificial
+        FEE rows (in the out-transactions and in the row-id -> (unique id, notes) table alike); those ids lie below the counter's start value and are pairwise
         distinct; and the matcher treats the row id of an event as an opaque label, so a renaming of event ids
         shows up in the fractions as that renaming and nothing else;
     (3) where a Python set reaches the output it passes through a sort whose key is injective on the set:
@@ -41,13 +42,14 @@ Theorem C17_pipeline_perm_invariant : forall b sched h h',
 Proof. exact pipeline_perm_invariant. Qed.
 
 (** (2) *)
-Theorem C17_counter_only_renames_artificial_ids : forall cfg asset c d rows,
+Theorem C17_counter_only_renames_artificial_ids : forall cfg asset c d rows, c <= 1 ->
   match parse_sheet cfg asset c rows with
   | Err e => parse_sheet cfg asset (c + d) rows = Err e
   | Ok p => exists real arts,
       pa_outs p = real ++ arts /\
       parse_sheet cfg asset (c + d) rows =
-        Ok {| pa_ins := pa_ins p; pa_outs := real ++ map (shift_out d) arts; pa_intras := pa_intras p; pa_counter := pa_counter p + d |}
+        Ok {| pa_ins := pa_ins p; pa_outs := real ++ map (shift_out d) arts; pa_intras := pa_intras p; pa_counter := pa_counter p + d;
+              pa_meta := shift_meta d c (pa_meta p) |}
   end.
 Proof. exact counter_only_renames_artificial_ids. Qed.
 
